@@ -63,7 +63,32 @@ type c15D8 struct { // unexported and '-' ignored
 	W int `json:",omitempty"`
 }
 
+// names that differ only in letter case at different depths are different names for encoding/json:
+// no field hides the other, an exact match wins when decoding, both are emitted when encoding
+type c15CI struct {
+	NAME string
+	Kind string
+}
+type c15D9 struct {
+	Name string
+	c15CI
+}
+type c15CJ struct {
+	ID int `json:"ID"`
+	Y  int
+}
+type c15D10 struct {
+	Id int `json:"id"`
+	*c15CJ
+}
+type c15D11 struct { // deeper: Name here, NAME two levels down
+	Name string
+	c15CK
+}
+type c15CK struct{ c15CI }
+
 var c15Declared = []func() interface{}{
+	func() interface{} { return new(c15D9) }, func() interface{} { return new(c15D10) }, func() interface{} { return new(c15D11) },
 	func() interface{} { return new(c15D1) }, func() interface{} { return new(c15D2) },
 	func() interface{} { return new(c15D3) }, func() interface{} { return new(c15D4) },
 	func() interface{} { return new(c15D5) }, func() interface{} { return new(c15D6) },
@@ -141,7 +166,7 @@ func c15FoldsToASCII(doc string) bool {
 	return strings.Contains(doc, "\u017f") || strings.Contains(doc, "\u212a") || strings.Contains(l, `\u017f`) || strings.Contains(l, `\u212a`)
 }
 
-// c15HasDepthConflict: some (case-folded) JSON name is reachable through embedded structs at two
+// c15HasDepthConflict: some JSON name (spelled the same) is reachable through embedded structs at two
 // different depths, or twice at the same depth — the situations in which encoding/json's
 // dominant-field rule decides (finding D15: go-json's duplicate filtering ignores the depth).
 func c15HasDepthConflict(t reflect.Type) bool {
@@ -172,8 +197,7 @@ func c15HasDepthConflict(t reflect.Type) bool {
 			if name == "" {
 				name = f.Name
 			}
-			k := strings.ToLower(name)
-			seen[k] = append(seen[k], depth)
+			seen[name] = append(seen[name], depth)
 		}
 	}
 	walk(t, 0)
@@ -334,7 +358,18 @@ func runC15(c *Ctx) {
 	for di, mk := range c15Declared {
 		v := mk()
 		c15EncodeCompare(c, v, fmt.Sprintf("declared%d", di))
-		for _, k := range []string{"X", "x", "Y", "Z", "z", "W", "w", "Q", "C", "e", "E", "c15E1", "-", "y"} {
+		switch x := v.(type) {
+		case *c15D9:
+			*x = c15D9{Name: "outer", c15CI: c15CI{NAME: "inner", Kind: "k"}}
+			c15EncodeCompare(c, v, fmt.Sprintf("declared%d-filled", di))
+		case *c15D10:
+			*x = c15D10{Id: 1, c15CJ: &c15CJ{ID: 2, Y: 3}}
+			c15EncodeCompare(c, v, fmt.Sprintf("declared%d-filled", di))
+		case *c15D11:
+			*x = c15D11{Name: "outer", c15CK: c15CK{c15CI{NAME: "inner", Kind: "k"}}}
+			c15EncodeCompare(c, v, fmt.Sprintf("declared%d-filled", di))
+		}
+		for _, k := range []string{"X", "x", "Y", "Z", "z", "W", "w", "Q", "C", "e", "E", "c15E1", "-", "y", "Name", "NAME", "name", "nAmE", "Kind", "id", "ID", "Id", "iD"} {
 			for _, sp := range c15Spellings(k, c) {
 				c15DecodeCompare(c, nil, mk, "{"+sp+":7}", fmt.Sprintf("declared%d", di))
 			}
